@@ -151,6 +151,7 @@ def setDriver {L S O : Type} (p : Sections L S O) : DriverKind × LoadErr :=
 
 /-! ## checks over one definition -/
 
+
 def driverTypeValid (d : Def) : Bool := d.driverType == "generic" || d.driverType == "network"
 
 def isNetwork (d : Def) : Bool := d.driverType == "network"
@@ -214,6 +215,12 @@ def joined (d : Def) : Re := joinedOf (d.levels.map (·.pattern))
 
 def joinedInOrder (d : Def) (order : List String) : Re :=
   joinedOf (order.filterMap fun k => (findLevel d k).map (·.pattern))
+
+/-- the constructor returns a driver: `setDriver` is content, and for a network driver
+`UpdatePrivileges` neither hits an invalid pattern (`MustCompile`) nor the nil-map write -/
+def constructs (d : Def) : Bool :=
+  (setDriver d).2 == .ok && (setDriver d).1 != .none &&
+  (d.driverType != "network" || ((d.levels.all fun l => l.patternOk) && graphBuildable d))
 
 def witnessOk (d : Def) (l : Level) : Bool :=
   l.witnessFound && !l.witness.isEmpty && levelMatches l l.witness && isMatch (joined d) l.witness
